@@ -93,6 +93,29 @@ def coupConsistent (tcs : List (TCpt K)) : Bool :=
         | _ => false))
     | _ => true)
 
+/-! ### hand-over of the state at a switching instant (`Netlist.convert_IVP` → `initialize`) -/
+
+/-- `NetlistMixin._initialize_from_circuit` with `C._initialize` / `L._initialize`: every capacitor of the post-switch
+    netlist gets as initial condition the voltage across it, every inductor the current through it — and every coupling the
+    current of the partner inductor, which `K._stamp` reads from the partner's `i0` — in the solution `X` of the
+    pre-switch circuit at the switching instant (for a steady pre-switch circuit: its `Laws .dc` solution). -/
+def initializeFrom (X : Ix → K) : Cpt K → Cpt K
+  | .Cap n1 n2 c _ => .Cap n1 n2 c (some (vd X n1 n2))
+  | .Ind n1 n2 m l _ coup => .Ind n1 n2 m l (some (X (.br m))) (coup.map (fun p => (p.1, p.2.1, some (X (.br p.1)))))
+  | c => c
+
+/-- the same netlist with no initial condition written: the state at 0⁻ is that of the signals' own pre-history -/
+def clearIC : Cpt K → Cpt K
+  | .Cap n1 n2 c _ => .Cap n1 n2 c none
+  | .Ind n1 n2 m l _ coup => .Ind n1 n2 m l none (coup.map (fun p => (p.1, p.2.1, none)))
+  | c => c
+
+/-- the value at 0⁻ of every signal's pre-history is the pre-switch solution `X` -/
+def StartsFrom (X : Ix → K) (x : Ix → Signal K) : Prop := ∀ ix, pre0 (x ix).pre = X ix
+
+/-- constant whole-axis signals: the steady state `X` continued for all t -/
+def constSignals (X : Ix → K) : Ix → Signal K := fun ix => ⟨[(X ix, 0, 0)], [.ep (X ix) 0 0 0]⟩
+
 /-- the model's time response for one unknown: inverse transforms of the partial-fraction data of its
     s-domain value (one `PF` per delay factor) -/
 def response (pfs : List (PF K)) : ExpPoly K := pfs.flatMap ilt
